@@ -6,7 +6,7 @@ from . import c01
 from .c04 import ref_scores
 
 PROP = "C10"
-LEAN_MODULE = "VK.Props.C10"
+LEAN_MODULE = "VK.Check.C10"
 THEOREMS = [
     "VK.C10_resolution_is_strict_order",
     "VK.C10_no_tiebreak_no_randomness",
